@@ -123,7 +123,9 @@ class AbstractDissimilarity(metaclass=ABCMeta):
                 unit_array[unit_id][0] = unit.segment.start
                 unit_array[unit_id][1] = unit.segment.end
                 unit_array[unit_id][2] = unit.segment.duration
-                unit_array[unit_id][3] = categories.index(unit.annotation)
+                # unlabelled units get an index of their own (one past the last category)
+                unit_array[unit_id][3] = (categories.index(unit.annotation) if unit.annotation is not None
+                                          else len(categories))
             unit_arrays.append(unit_array)
         return unit_arrays
 
@@ -152,7 +154,9 @@ class AbstractDissimilarity(metaclass=ABCMeta):
                     alignment_array[i, annotator_i, 0] = unit.segment.start
                     alignment_array[i, annotator_i, 1] = unit.segment.end
                     alignment_array[i, annotator_i, 2] = unit.segment.duration
-                    alignment_array[i, annotator_i, 3] = categories.index(unit.annotation)
+                    # unlabelled units get an index of their own (one past the last category)
+                    alignment_array[i, annotator_i, 3] = (categories.index(unit.annotation)
+                                                          if unit.annotation is not None else len(categories))
                 else:
                     alignment_array[i, annotator_i] = np.array([-1, -1, -1, -1], dtype=np.float32)
         return alignment_array
